@@ -328,6 +328,10 @@ func runAttempt(n *Node, hw *heightWatch, c *Case, attempt int) (o *Outcome) {
 		o.Class, o.Detail = "setup", err.Error()
 		return
 	}
+	if c.Mode == "mirror" {
+		runMirror(n, c, att, o)
+		return
+	}
 	t0 := time.Now()
 	// the script is sent right after a height change so that it arrives (the
 	// MConnection flushes 100 ms after the first write) within that height
@@ -435,4 +439,120 @@ func runAttempt(n *Node, hw *heightWatch, c *Case, attempt int) (o *Outcome) {
 	o.Disconnected = att.nodeSidePeer(n) == nil
 	o.Recv = att.R.counts()
 	return
+}
+
+// runMirror: the attacker claims the node's CURRENT height and names the parts header of the
+// block the node is working on - what any peer at that height learns from the node's own
+// gossip.  That is the state in which the gossip routines combine the peer's stored bit arrays
+// with the node's own part set.  A free-running single-validator node passes through it in a
+// few milliseconds, so the consensus goroutine is parked at the build-tagged gate (between two
+// inputs, no lock held, reactor and gossip routines running) while the script is delivered and
+// for a few gossip periods afterwards.
+func runMirror(n *Node, c *Case, att *Attacker, o *Outcome) {
+	g := pbft.NewVerifGate()
+	type snap struct {
+		h   int64
+		hdr types.PartSetHeader
+	}
+	paused := make(chan snap, 1)
+	release := make(chan struct{})
+	giveUp := make(chan struct{})
+	done := make(chan struct{})
+	n.CS.SetVerifGate(g)
+	go func() {
+		defer close(done)
+		for {
+			<-g.Idle
+			stop := false
+			select {
+			case <-giveUp:
+				stop = true
+			default:
+				rs := n.CS.VerifRoundState()
+				if rs.ProposalBlockParts != nil && rs.ProposalBlockParts.IsComplete() && rs.Step >= pbft.RoundStepPrevote && rs.Step < pbft.RoundStepCommit {
+					paused <- snap{rs.Height, rs.ProposalBlockParts.Header()}
+					<-release
+					stop = true
+				}
+			}
+			if stop {
+				n.CS.SetVerifGate(nil) // the consensus goroutine is parked: it will not look at the gate again
+				g.Go <- struct{}{}
+				return
+			}
+			g.Go <- struct{}{}
+		}
+	}()
+	var sn snap
+	select {
+	case sn = <-paused:
+	case <-time.After(caseDeadline):
+		close(giveUp)
+		<-done
+		o.Class, o.Detail = "setup", "the node did not reach a step with a complete proposal block"
+		return
+	}
+	resume := func() {
+		close(release)
+		<-done
+	}
+	ctx := newCtx(n, "live", sn.h, c.ID)
+	ctx.T, ctx.hdr, ctx.realHdr = sn.h, sn.hdr, true
+	o.H0, o.T = sn.h, sn.h
+	gc := findCase(ctx, c)
+	if gc == nil {
+		resume()
+		o.Class, o.Detail = "nokey", "the generator has no case "+c.Key+" for the live node"
+		return
+	}
+	o.Wire = hex.EncodeToString(gc.Bz)
+	if len(o.Wire) > 400 {
+		o.Wire = o.Wire[:400] + "…"
+	}
+	o.Text = gc.Text
+	fmt.Fprintf(os.Stderr, "##C08MSG %d node parked at height %d with a complete proposal block, msg %s wire %s\n", c.ID, sn.h, gc.Text, o.Wire)
+	script := append(ctx.prelude(c.Type), wireMsg{gc.Ch, gc.Bz})
+	nonce := make([]byte, 16)
+	binary.BigEndian.PutUint64(nonce, uint64(c.ID))
+	binary.BigEndian.PutUint64(nonce[8:], uint64(time.Now().UnixNano()))
+	script = append(script, wireMsg{probeChannel, nonce})
+	arrived := n.Probe.expect(nonce)
+	for _, m := range script {
+		att.Peer.Send(m.Ch, rawValue(m.Bz))
+	}
+	dl := time.Now().Add(caseDeadline)
+	delivered := false
+	for !delivered {
+		select {
+		case <-arrived:
+			delivered = true
+		case <-time.After(5 * time.Millisecond):
+			if att.nodeSidePeer(n) == nil {
+				delivered = true
+			}
+		}
+		if !delivered && time.Now().After(dl) {
+			resume()
+			o.Class, o.Detail = "undelivered", "the end-of-script marker did not reach the node and the node did not drop the attacker"
+			return
+		}
+	}
+	// the gossip routines (sleep 100 ms) get their periods while the node still holds the block
+	// (a generous multiple: the routines' timers compete with everything else on a loaded machine)
+	time.Sleep(4*gossipPeriods*gossipSleep + 300*time.Millisecond)
+	o.PRS = prsDigest(att.nodeSidePeer(n), sn.h)
+	storeAtDel := n.Store.Height()
+	resume()
+	dl = time.Now().Add(caseDeadline)
+	for n.Store.Height() < storeAtDel+3 {
+		if time.Now().After(dl) {
+			o.Class = "stall"
+			o.Detail = fmt.Sprintf("%d blocks committed in %v after the node was released (store height %d, consensus height %d)", n.Store.Height()-storeAtDel, caseDeadline, n.Store.Height(), n.Height())
+			break
+		}
+		time.Sleep(10 * time.Millisecond)
+	}
+	o.Blocks = n.Store.Height() - storeAtDel
+	o.Disconnected = att.nodeSidePeer(n) == nil
+	o.Recv = att.R.counts()
 }
